@@ -23,6 +23,11 @@ def run():
         for _ in range(n3):
             pid += 1
             progs.append((pid, cg.wrap_toplevel(cg.Gen03(rng).program())))
+        import qqgen
+        for rep in range(40 if chk.thorough else 2):      # the remaining derived forms and nested quasiquote templates (see C03)
+            for _name, node in cg.forms_cases(rng) + qqgen.qq_cases(rng, 6):
+                pid += 1
+                progs.append((pid, cg.wrap_toplevel(node)))
         total_ok = 0
         outs = {}
         for name, b in builds:
